@@ -124,6 +124,7 @@ def execute(sc, ctx):
         elif raw is not None and raw != want_bytes:
             ctx.violate("dir-bytes-not-canonical", route, f"{raw[:120]!r}")
 
+    digested = []  # (route, Tree) whose serialised object is read back at the very end
     # -- route 1: insertion order ------------------------------------------
     items = sorted(ents.items())
     for _ in range(3):
@@ -133,6 +134,7 @@ def execute(sc, ctx):
             t.add(tuple(rel.split("/")), Meta(size=prng.randrange(100), isexec=prng.random() < 0.3), HashInfo("md5", oid))
         t.digest()
         check("Tree.add-permuted", t.hash_info.value, t.as_bytes())
+        digested.append(("Tree.add-permuted", t))
         # the id never depends on metadata, also when the object is asked to CARRY its metadata
         tm = Tree()
         for key, meta, hi in t:
@@ -231,6 +233,22 @@ def execute(sc, ctx):
         routes += 1
         if t.as_bytes() == base.as_bytes():
             ctx.violate("different-sets-same-bytes", name, f"{v} vs {ents}")
+    # the serialised object each digested tree points at (what a store would be given) is still its OWN
+    # listing after other trees - other ids, same algorithm - have been digested since
+    for obj_ in (full, base):
+        digested.append(("later-tree", obj_))
+    base.digest()
+    import hashlib as _hl
+
+    for route, tr in digested:
+        routes += 1
+        try:
+            raw = tr.fs.cat_file(tr.path)
+        except Exception as exc:  # noqa: BLE001
+            ctx.violate("tree-object-unreadable", route, repr(exc))
+            continue
+        if _hl.md5(raw).hexdigest() + ".dir" != tr.hash_info.value:  # noqa: S324
+            ctx.violate("tree-object-bytes-differ", route, f"object behind {tr.hash_info.value} holds other bytes ({len(raw)})")
     state.close()
     ctx.extra["subruns"] = routes
     nested = any("/" in r for r in ents)
